@@ -226,6 +226,7 @@ func run(seed int64, n int, dir string, _ []string) {
 		headerlessCorpus(o, bin, scratch)
 		endingPlacement(o, bin, scratch)
 		createdCorpus(o, bin, scratch)
+		sessionCorpus(o, bin, scratch)
 		if os.Getenv("VERIF_RELOAD") != "" {
 			lockedReload(o, bin, scratch)
 		}
